@@ -498,8 +498,8 @@ class C40(core.Check):
         hist = {'crc': 0, 'file': 0, 'real': 0, 'resume': 0, 'files': 0, 'mid': 0, 'reopen': 0}
         out = []
         thorough = self.tier == 'thorough'
-        n_resume = n // 15 if thorough else max(20, n // 35)
-        n_files = n // 40 if thorough else max(10, n // 70)
+        n_resume = n // 15 if thorough else max(18, n // 38)
+        n_files = n // 40 if thorough else max(8, n // 85)
         n_reopen = max(60, n // 12)
         n_file = max(30, n // 12)
         n_real = 6 if thorough else 2
